@@ -450,4 +450,128 @@ def no_deaths(tr, viol):
                 viol("thread-spin", case_of(tr, i), list(s))
 
 
-ORACLES = {"C06": c06, "C07": c07, "C08": c08, "C09": c09, "C11": c11, "C12": c12, "C13": c13, "C17": c17}
+def c10(tr, viol):
+    cfg = tr.cfg
+    outstanding = {}      # cid -> set of hbh outstanding (requests written, unanswered)
+    sent_by = {}          # (hbh, e2e) -> app index
+    waiting = {}          # (hbh, e2e) -> (app, deadline): caller still blocked
+    for i, (e, o) in enumerate(zip(tr.events, tr.obs)):
+        now = tr.time[i]
+        before = tr.obs[i - 1]["snap"] if i else {"conns": [], "peers": []}
+        for k in [k for k, (a, dl) in waiting.items() if dl <= now]:
+            waiting.pop(k)
+        if e["ev"] == "app_request":
+            app = e["app"]
+            m = e["msg"]
+            realm = m.destination_realm.decode() if getattr(m, "destination_realm", None) else cfg["realm"]
+            names = None
+            for p in cfg["peers"]:
+                for r in [p["realm"]] + list(cfg.get("extra_realms", {}).get(app) or []):
+                    if r == realm and app in p["apps"]:
+                        names = (names or []) + [p["name"]]
+            if names is None:
+                dflt = [p["name"] for p in cfg["peers"] if p.get("default") and p["realm"] == realm]
+                names = dflt if (dflt or realm == cfg["realm"] or any(p["realm"] == realm for p in cfg["peers"])) else None
+            eligible = []
+            for nme in (names or []):
+                pb = next((p for p in before["peers"] if p[0] == nme), None)
+                if pb and pb[1] != -1:
+                    c = conn_of(before, pb[1])
+                    if c and c[2] in (2, 3):
+                        eligible.append(pb[1])
+            reqs = [(cid, s_) for cid, ms in o["sends"].items() for s_ in ms if s_["req"] and s_["cmd"].startswith("App")]
+            res = o["results"][0] if o["results"] else None
+            if not eligible:
+                if reqs or res != "NotRoutable":
+                    viol("none-is-not-routable", case_of(tr, i), {"sent": [(c, s_["hbh"]) for c, s_ in reqs], "result": res},
+                         what="no eligible ready peer, yet the request was sent or no NotRoutable was raised")
+            else:
+                stalled_ok = (not reqs) and any(c in o["stalled"] for c in eligible) and res is None
+                if not stalled_ok:
+                    if len(reqs) != 1 or reqs[0][0] not in eligible:
+                        viol("eligible-ready-peer", case_of(tr, i, {"eligible": eligible}), [(c, s_["hbh"]) for c, s_ in reqs],
+                             what="a request was sent to a peer that is not an eligible ready peer for the application and realm")
+                    else:
+                        cid, s_ = reqs[0]
+                        want = eligible[e.get("pick", 0) % len(eligible)] if len(eligible) > 1 else eligible[0]
+                        if cid != want:
+                            viol("selection-callback", case_of(tr, i, {"eligible": eligible}), cid, want,
+                                 what="the request did not go to the peer the selection callback picked")
+                        if s_["hbh"] == 0 or s_["hbh"] in outstanding.get(cid, set()):
+                            viol("hop-by-hop-fresh", case_of(tr, i), s_["hbh"], what="hop-by-hop id zero or already outstanding on that connection")
+            for cid, s_ in reqs:
+                outstanding.setdefault(cid, set()).add(s_["hbh"])
+                sent_by[(s_["hbh"], s_["e2e"])] = app
+                waiting[(s_["hbh"], s_["e2e"])] = (app, now + e["timeout"])
+        if e["ev"] == "recv":
+            for fr in tr.frames[i]:
+                if fr["req"] or not fr["cmd"].startswith("App"):
+                    continue
+                key = (fr["hbh"], fr["e2e"])
+                cb = conn_of(before, e["cid"])
+                if not cb or cb[2] not in (2, 3, 4):
+                    continue
+                got_answer = [a for a in o["answered"] if (a[1], a[2]) == key]
+                unexp = [u for u in o["unexpected"] if u[1] == fr["hbh"]]
+                if key in waiting and key in sent_by:
+                    app, _dl = waiting.pop(key)
+                    outstanding.get(e["cid"], set()).discard(fr["hbh"])
+                    if len(tr.frames[i]) == 1 and (len(got_answer) != 1 or got_answer[0][0] != app):
+                        viol("answer-to-sender", case_of(tr, i), {"answered": o["answered"], "unexpected": o["unexpected"]},
+                             what="the blocked sender did not receive the answer bearing its identifiers")
+                    sent_by.pop(key, None)
+                elif key in sent_by:
+                    app = sent_by.pop(key)
+                    if got_answer or (len(tr.frames[i]) == 1 and [u[0] for u in unexp] != [app]):
+                        viol("late-answer-to-unexpected-handler", case_of(tr, i), {"answered": o["answered"], "unexpected": o["unexpected"]}, app,
+                             what="a late answer was not passed to the unexpected-answer handler of the sending application only")
+                else:
+                    if got_answer or unexp:
+                        viol("unknown-answer-ignored", case_of(tr, i), {"answered": o["answered"], "unexpected": o["unexpected"]},
+                             what="an answer with unknown identifiers reached an application")
+        for cid in o["closed"]:
+            outstanding.pop(cid, None)
+
+
+def c18(tr, viol):
+    stopping_from = None
+    for i, (e, o) in enumerate(zip(tr.events, tr.obs)):
+        before = tr.obs[i - 1]["snap"] if i else {"conns": [], "peers": []}
+        if e["ev"] == "stop":
+            stopping_from = i
+            ready = sorted(c[0] for c in before["conns"] if c[2] in (2, 3))
+            dpr = sorted(cid for cid, ms in o["sends"].items() for s_ in ms if s_["cmd"] == "DP" and s_["req"])
+            held = [c for c in ready if c in o["stalled"]]
+            want = [] if e["force"] else [c for c in ready if c not in held]
+            if dpr != want:
+                viol("dpr-to-ready-peers", case_of(tr, i), dpr, want,
+                     what="stop() must send a DPR to exactly the ready peers (none when forced)")
+            continue
+        if stopping_from is not None:
+            for cid, ms in o["sends"].items():
+                for s_ in ms:
+                    if s_["req"] and s_["cmd"] in ("DW", "CE"):
+                        viol("quiet-while-stopping", case_of(tr, i), s_, what="a DWR/CER was sent while the node is stopping")
+            if o["dials"]:
+                viol("quiet-while-stopping", case_of(tr, i), o["dials"], what="a peer was dialled while the node is stopping")
+            if e["ev"] == "accept":
+                newc = [c for c in o["snap"]["conns"] if conn_of(before, c[0]) is None]
+                if newc:
+                    viol("newcomers-refused", case_of(tr, i), [c[0] for c in newc], what="a connection arriving during shutdown was registered")
+            if e["ev"] == "recv" and len(tr.frames[i]) == 1 and tr.frames[i][0]["cmd"] == "DP" and not tr.frames[i][0]["req"]:
+                cb = conn_of(before, e["cid"])
+                if cb and cb[2] == 4 and e["cid"] not in o["stalled"] and conn_of(o["snap"], e["cid"]) is not None:
+                    viol("close-after-dpa", case_of(tr, i), "still open", what="connection not closed after its DPA arrived and output was flushed")
+            if e["ev"] == "stop_finish":
+                if not e.get("returned"):
+                    viol("stop-returns", case_of(tr, i), "stop() did not return")
+                if o["snap"]["conns"] or o["open_sockets"] or any(o["listeners_open"]):
+                    viol("all-closed", case_of(tr, i), {"connections": [c[0] for c in o["snap"]["conns"]], "open_sockets": o["open_sockets"],
+                                                       "listeners_open": o["listeners_open"]},
+                         what="after stop() returned a peer or listening socket is still open")
+                workers = {k: v for k, v in o["live_threads"].items() if k not in ("spawn",)}
+                if workers:
+                    viol("threads-terminate", case_of(tr, i), workers, what="node / connection worker threads still alive after stop()")
+
+
+ORACLES = {"C10": c10, "C18": c18, "C06": c06, "C07": c07, "C08": c08, "C09": c09, "C11": c11, "C12": c12, "C13": c13, "C17": c17}
